@@ -68,7 +68,7 @@ def run(chk):
     chk.rule("R07.7", "quadrature plumbing: one FFT norm, fft/ifft pairing, weights rescaled to 4 pi, phi grid, ntheta >= L+1", 8)
     chk.rule("R07.10", "point-wise evaluation is the synthesis at one point: every coefficient enters with the synthesis transfer factor times "
                       "its Legendre value times exp(i k phi), k the Fourier index of the synthesis (real part for the real transform)", 4)
-    chk.rule("R07.8", "transform results are freshly allocated: no public SHT method returns (a view of) an instance work array", 8)
+    chk.rule("R07.8", "transform results are freshly allocated (no public SHT method returns a view of an instance work array) and leave the transform as the kernel accumulated them (no thresholding)", 8)
     K = kernels(chk, sht, pyx, al)
     if chk.want("R07.1"):
         r07_1(chk, sht, pyx, K)
@@ -646,7 +646,32 @@ def _sizes_of(term, attr_sizes, real_branch, q):
 
 
 # ------------------------------------------------------------------------------------------------ R07.8
+def r07_8_linear(chk, sht):
+    """Linearity, homogeneity and Parseval need the coefficients to leave analysis() exactly as the kernel accumulated them:
+    no thresholding, rounding or clean-up of small values afterwards (an absolute cut-off is not homogeneous)."""
+    for q in ("SHT.analysis", "SHT.analysis_pure_python", "SHT.analysis_pure_python_cplx", "SHT.synthesis", "SHT.synthesis_pure_python",
+              "SHT.synthesis_pure_python_cplx"):
+        if q not in sht.funcs:
+            continue
+        ev = sht.ev(q)
+        ret = ev.returns[-1].value
+        root = ret.as_atom()
+        bad = []
+        for e in ev.events:
+            if e.kind not in ("store", "aug"):
+                continue
+            t = e.target.as_atom()
+            if not (t and t[0] == "sub" and len(t[2]) == 1):
+                continue
+            idx = t[2][0]
+            if find_atoms(idx, lambda a: a[0] in ("lt", "le", "eq", "ne")) and ("coeffs" in e.target.key() or "values" in e.target.key()):
+                bad.append(f"line {e.lineno}: {str(e.target)[:80]} = {e.value}")
+        chk.ob("R07.8", SHT, q, "the result is not thresholded or cleaned up after the transform (no masked overwrite by magnitude)", not bad,
+               fingerprint="no-threshold", found=bad[:2])
+
+
 def r07_8(chk, sht):
+    r07_8_linear(chk, sht)
     """A second transform must not overwrite the result of the first (linearity, round trips and Parseval all compare two results)."""
     from ..effects import alias_path
     for fn in sht.methods("SHT"):
